@@ -6,6 +6,7 @@ import (
 	"context"
 	"fmt"
 	"strconv"
+	"strings"
 	"testing"
 
 	metav1 "k8s.io/apimachinery/pkg/apis/meta/v1"
@@ -248,7 +249,29 @@ func TestVerifC07Pol(t *testing.T) {
 			humans = append(humans, map[string]any{"policy": c05Key(o), "generation": cur.GetGeneration(), "targets": c07PolTargets(cur), "entries_of_others_before": before[c05Key(o)], "entries": hes})
 			out.Tally("kind", kind)
 		}
-		out.Case(vu.App("PCase", c.Coq(), vu.List(terms)), map[string]any{"cluster": c, "policies": humans}, nonTrivial && len(pols) >= 3, c.Coq()+vu.List(terms))
+		// does the status of some Route blame an invalid BackendTLSPolicy (other than one with a full ancestor list)?
+		blamed := false
+		blame := func(ps []gatewayv1.RouteParentStatus) {
+			for _, p := range ps {
+				for _, cd := range p.Conditions {
+					if strings.Contains(cd.Message, "the backend TLS policy is invalid:") && !strings.Contains(cd.Message, "no room for another ancestor") {
+						blamed = true
+					}
+				}
+			}
+		}
+		var hrs gatewayv1.HTTPRouteList
+		_ = w.k8s.List(ctx, &hrs)
+		for _, o := range hrs.Items {
+			blame(o.Status.Parents)
+		}
+		var grs gatewayv1.GRPCRouteList
+		_ = w.k8s.List(ctx, &grs)
+		for _, o := range grs.Items {
+			blame(o.Status.Parents)
+		}
+		out.Tally("route_blames_backendtlspolicy", strconv.FormatBool(blamed))
+		out.Case(vu.App("PCase", c.Coq(), vu.List(terms), vu.Bool(blamed)), map[string]any{"cluster": c, "policies": humans, "a_route_blames_an_invalid_BackendTLSPolicy": blamed}, nonTrivial && len(pols) >= 3, c.Coq()+vu.List(terms))
 		out.Tally("policies", strconv.Itoa(len(pols)/3*3))
 		out.Tally("invalid_gateway", strconv.FormatBool(invalidGw))
 	}
